@@ -3,12 +3,7 @@ import Dashu.Model.Int.Div
 /-
   Driver of group `div` (C02): runs the mirrored division model; beside every result it evaluates
   the specification (`Nat` `/ %`, `Int.tdiv/tmod`, `Int.ediv/emod` — Lean core) and appends
-  ` !model-spec-mismatch` if they differ.  What is printed is always the *required* result.
-
-  One input class is a recorded defect of the code (ConstDivisor `%` with a one-word divisor whose
-  top bit is set and an inline dividend whose high word is ≥ the divisor): there the model mirrors
-  the code (an `.undocumented` precondition failure of `div_rem_2by1`), the driver checks that the
-  model indeed fails in exactly that way and prints the required value.
+  ` !model-spec-mismatch` if they differ.
 -/
 namespace Dashu.Driver.Div
 open Dashu.IO Dashu.Model Dashu.Model.Div Dashu.Driver
@@ -36,16 +31,6 @@ def same (xs : List String) : String :=
   match xs with
   | [] => "?"
   | x :: rest => if rest.all (· == x) then x else x ++ " !model-forms-disagree"
-
-/-- the recorded defect class of `ConstSingleDivisor::rem_dword` (shift == 0 arm) -/
-def remDefect (W a b : Nat) : Bool :=
-  decide (2 ^ (W - 1) ≤ b ∧ b < 2 ^ W ∧ a < 2 ^ (2 * W) ∧ b ≤ a / 2 ^ W)
-
-/-- in the defect class the mirrored model must fail with the 2by1 precondition; print `spec` -/
-def chkDefect (inDefect : Bool) (model spec : String) : String :=
-  if model = spec then model
-  else if inDefect ∧ model = "panic Undocumented(div_rem_2by1: a_hi < divisor)" then spec
-  else model ++ " !model-spec-mismatch spec=" ++ spec
 
 def uu (W : Nat) (p : TRepr × TRepr) : String := uStr W p.1 ++ " " ++ uStr W p.2
 def ss (W : Nat) (p : SRepr × SRepr) : String := sStr W p.1 ++ " " ++ sStr W p.2
@@ -180,7 +165,7 @@ def dispatch : Dispatch := fun W op args =>
   | "u.crem", [a, b] => do
     let x ← parseNat a; let y ← parseNat b
     let m := res (do let c ← ConstDiv.new W (ofNat W y); uStr W <$> remConst W (ofNat W x) c)
-    pure (chkDefect (remDefect W x y) m (if y = 0 then dbz else "ok " ++ natToHex (x % y)))
+    pure (chk m (if y = 0 then dbz else "ok " ++ natToHex (x % y)))
   | "u.cdivrem2", [a, b] => do
     let x ← parseNat a; let y ← parseNat b
     let m := res (do let c ← ConstDiv.new W (ofNat W y); uu W <$> divRemConst W (ofNat W x) c)
@@ -195,7 +180,7 @@ def dispatch : Dispatch := fun W op args =>
       let r ← remConst W (ofNat W x) c
       pure (uStr W q ++ " " ++ uStr W r))
     let r1 := chk m1 spec
-    let r2 := chkDefect (remDefect W x y) m2 spec
+    let r2 := chk m2 spec
     pure (if r1 = spec then r2 else r1)
   | "i.cdiv", [a, b] => do
     let x ← parseInt a; let y ← parseNat b
@@ -204,7 +189,7 @@ def dispatch : Dispatch := fun W op args =>
   | "i.crem", [a, b] => do
     let x ← parseInt a; let y ← parseNat b
     let m := res (do let c ← ConstDiv.new W (ofNat W y); sStr W <$> ibigRemConst W (sOfInt W x) c)
-    pure (chkDefect (remDefect W x.natAbs y) m (if y = 0 then dbz else "ok " ++ intToHex (Int.tmod x y)))
+    pure (chk m (if y = 0 then dbz else "ok " ++ intToHex (Int.tmod x y)))
   | "i.cdivrem2", [a, b] => do
     let x ← parseInt a; let y ← parseNat b
     let m := res (do let c ← ConstDiv.new W (ofNat W y); ss W <$> ibigDivRemConst W (sOfInt W x) c)
@@ -219,7 +204,7 @@ def dispatch : Dispatch := fun W op args =>
       let r ← ibigRemConst W (sOfInt W x) c
       pure (sStr W q ++ " " ++ sStr W r))
     let r1 := chk m1 spec
-    let r2 := chkDefect (remDefect W x.natAbs y) m2 spec
+    let r2 := chk m2 spec
     pure (if r1 = spec then r2 else r1)
   | _, _ => none
 
